@@ -1,4 +1,5 @@
 mod conc;
+mod eval;
 mod extkey;
 mod refgroup;
 mod record;
@@ -97,7 +98,9 @@ fn read_behaviours(path: &str) -> Vec<Vec<Value>> {
 
 fn main() {
     // panics inside opaque-ke are data (C12); keep the default hook quiet
-    std::panic::set_hook(Box::new(|_| {}));
+    if std::env::var("VERIF_PANIC").is_err() {
+        std::panic::set_hook(Box::new(|_| {}));
+    }
     let all = suites::all();
     let args = Args::parse();
     let seed = args.num("seed", 0);
@@ -131,6 +134,7 @@ fn main() {
                     shadow_direct: v["opts"]["shadow_direct"].as_bool().unwrap_or(false),
                     scan_secrets: v["opts"]["scan_secrets"].as_bool().unwrap_or(false),
                     tape_swap: v["opts"]["tape_swap"].as_bool().unwrap_or(false),
+                    tape_multi_only: v["opts"]["tape_multi_only"].as_bool().unwrap_or(false),
                     check_ksf: v["opts"]["check_ksf"].as_bool().unwrap_or(false),
                     ext_fail_at: v["opts"]["ext_fail_at"].as_u64().unwrap_or(1) as u32,
                 };
@@ -169,13 +173,14 @@ fn main() {
                     shadow_direct: args.get("shadow-direct", "no") == "yes",
                     scan_secrets: args.get("scan-secrets", "no") == "yes",
                     tape_swap: args.get("tape-swap", "no") == "yes",
+                    tape_multi_only: args.get("tape-multi-only", "no") == "yes",
                     check_ksf: args.get("check-ksf", "no") == "yes",
                     ext_fail_at: args.num("ext-fail-at", 1) as u32,
                 },
             };
             let opts_json = json!({"sweep": args.get("sweep", "none"), "sweep_fin": job.opts.sweep_fin,
                 "shadow_no_reload": job.opts.shadow_no_reload, "shadow_direct": job.opts.shadow_direct,
-                "scan_secrets": job.opts.scan_secrets, "tape_swap": job.opts.tape_swap, "check_ksf": job.opts.check_ksf,
+                "scan_secrets": job.opts.scan_secrets, "tape_swap": job.opts.tape_swap, "tape_multi_only": job.opts.tape_multi_only, "check_ksf": job.opts.check_ksf,
                 "ext_fail_at": job.opts.ext_fail_at});
             let t0 = std::time::Instant::now();
             let sum = replay::run(&job);
@@ -212,6 +217,107 @@ fn main() {
                 let mut f = std::fs::File::create(&out_path).unwrap();
                 f.write_all(serde_json::to_string(&summary).unwrap().as_bytes()).unwrap();
             }
+        }
+        "bytes" => {
+            // C09: evaluate the full term of every output with reference primitives
+            let sel = select_suites(&all, &args.get("suites", "quick"), seed);
+            let thorough = args.get("tier", "quick") == "thorough";
+            let profiles = conc::profiles(seed, thorough);
+            let per = args.num("per-behaviour", 3) as usize;
+            let f = std::fs::File::open(args.get("behaviours", "")).expect("behaviours");
+            let lines: Vec<Value> = std::io::BufReader::new(f).lines().map(|l| serde_json::from_str(&l.unwrap()).unwrap()).collect();
+            let mut items = Vec::new();
+            let combos: Vec<(usize, usize)> = (0..sel.len()).flat_map(|s| (0..profiles.len()).map(move |p| (s, p))).collect();
+            for b in 0..lines.len() {
+                for k in 0..per.min(combos.len()) {
+                    let (s, p) = combos[(b * per + k * 7 + seed as usize) % combos.len()];
+                    items.push((b, s, p));
+                }
+            }
+            let next = std::sync::atomic::AtomicUsize::new(0);
+            let out = std::sync::Mutex::new((0usize, 0usize, 0usize, Vec::<Value>::new(), Vec::<Value>::new()));
+            std::thread::scope(|sc| {
+                for _ in 0..args.num("threads", 12) {
+                    sc.spawn(|| loop {
+                        let i = next.fetch_add(1, std::sync::atomic::Ordering::Relaxed);
+                        if i >= items.len() { break; }
+                        let (b, si, pi) = items[i];
+                        let suite = sel[si];
+                        let prof = &profiles[pi];
+                        let events = lines[b]["events"].as_array().unwrap();
+                        let terms = lines[b]["terms"].as_array().unwrap();
+                        let mut w = world::World::new(suite, seed, prof.clone());
+                        let mut draws = eval::Draws { by_tape: HashMap::new(), run_seed: seed };
+                        let mut bad: Option<Value> = None;
+                        for (n, e) in events.iter().enumerate() {
+                            let o = w.step(e);
+                            if let Some(t) = e.get("tape").and_then(|t| t.as_i64()) {
+                                draws.by_tape.entry(t).or_default().extend(o.draws.iter().cloned());
+                            }
+                            if let Some((k, d)) = replay::compare_step(&mut w, e, &o) {
+                                bad = Some(json!({"suite": suite.name(), "behaviour_index": b, "step": n, "kind": k, "detail": d}));
+                                break;
+                            }
+                        }
+                        if w.atoms_collide() { continue; }
+                        let mut checked = 0;
+                        let mut evals = 0;
+                        if bad.is_none() {
+                            let refo = refgroup::oprf_by_name(suite.oprf());
+                            let refk = refgroup::ke_by_name(suite.ke());
+                            let mut ev = eval::Evaluator {
+                                profile: prof, lens: suite.lens(), oprf: refo.as_ref(), ke: refk.as_ref(),
+                                hash: refo.hash(), ksf_kind: suite.ksf_kind(), observed: HashMap::new(),
+                                rnd: HashMap::new(), memo: HashMap::new(), evaluations: 0,
+                            };
+                            for (i, t) in terms.iter().enumerate() {
+                                if let Some(v) = w.intern.get(i + 1) {
+                                    ev.observed.insert(t.to_string(), v.clone());
+                                }
+                            }
+                            for (i, t) in terms.iter().enumerate() {
+                                let Some(obs) = w.intern.get(i + 1).cloned() else { break };
+                                checked += 1;
+                                if let Err(m) = eval::check_root(&mut ev, &draws, t, &obs) {
+                                    let ts = t.to_string();
+                                    bad = Some(json!({"suite": suite.name(), "behaviour_index": b, "value_id": i + 1, "kind": "bytes",
+                                        "detail": format!("value #{} ({}...): {}", i + 1, &ts[..ts.len().min(160)], m)}));
+                                    break;
+                                }
+                            }
+                            evals = ev.evaluations;
+                        }
+                        let mut o = out.lock().unwrap();
+                        o.0 += 1;
+                        o.1 += checked;
+                        o.2 += evals;
+                        if o.4.len() < 2 && checked > 0 {
+                            o.4.push(json!({"suite": suite.name(), "profile": prof.describe(), "values_checked": checked,
+                                "example_term": terms.last().map(|t| { let s = t.to_string(); s[..s.len().min(300)].to_string() })}));
+                        }
+                        if let Some(mut v) = bad {
+                            if o.3.len() < 20 {
+                                v["profile"] = json!({"pw": prof.pw, "cid": prof.cid, "ctx": prof.ctx, "id": prof.id, "seed": prof.seed});
+                                v["run_seed"] = json!(seed);
+                                v["line"] = lines[b].clone();
+                                o.3.push(v);
+                            }
+                        }
+                    });
+                }
+            });
+            let o = out.into_inner().unwrap();
+            let dir = args.get("replay-dir", "/verif/replays");
+            std::fs::create_dir_all(&dir).ok();
+            let mut vio = Vec::new();
+            for v in o.3 {
+                let h = refgroup::HashKind::Sha256.hash(&[v["detail"].to_string().as_bytes(), v["suite"].to_string().as_bytes()]);
+                let path = format!("{}/{}-bytes-{}.json", dir, args.get("prop", "C09"), hex::encode(&h[..6]));
+                std::fs::write(&path, serde_json::to_string(&v).unwrap()).unwrap();
+                vio.push(json!({"replay": path, "suite": v["suite"], "kind": v["kind"], "detail": v["detail"]}));
+            }
+            println!("{}", json!({"executions": o.0, "values_checked": o.1, "term_evaluations": o.2,
+                "suites": sel.iter().map(|s| s.name()).collect::<Vec<_>>(), "violations": vio, "samples": o.4}));
         }
         "wire-replay" => {
             let v: Value = serde_json::from_str(&std::fs::read_to_string(args.get("file", "")).expect("replay file")).unwrap();
